@@ -630,7 +630,7 @@ def _uturn(orb, l, r, tolscale):
     if abs(d1) <= s or abs(d2) <= s:
         # only the sign of the *other* factor can still decide
         if (abs(d1) <= s and d2 < -s) or (abs(d2) <= s and d1 < -s) or (abs(d1) <= s and abs(d2) <= s):
-            raise _Ambiguous()
+            raise _Ambiguous("uturn_tie")
     return d1 < 0.0 and d2 < 0.0
 
 
@@ -643,11 +643,11 @@ def _attempt(orb, start, direction, depth, maxde, tolscale):
         i = start + direction * j
         Hi = orb.H[i]
         if np.isnan(Hi) or (np.isinf(Hi) and math.isinf(maxde)):
-            raise _Ambiguous()          # NaN > max is False, inf > inf is False: unspecified territory
+            raise _Ambiguous("nonfinite_energy")    # NaN > max is False, inf > inf is False: unspecified
         dev = abs(float(Hi - H0))
         herr = TOL * max(1.0, abs(H0), min(abs(Hi), 1e300))
         if abs(dev - maxde) <= herr:
-            raise _Ambiguous()
+            raise _Ambiguous("energy_tie")
         div = dev > maxde
         turn = False
         k = 1
@@ -671,7 +671,7 @@ def _explain(orb, tree, L, d, D, maxde, tolscale):
     # log-weight = log sum exp(-H)
     Hs = np.array([orb.H[i] for i in range(L, R + 1)], dtype=np.float64)
     if not np.all(np.isfinite(Hs)):
-        raise _Ambiguous()
+        raise _Ambiguous("nonfinite_energy")
     m = np.max(-Hs)
     lw = m + math.log(float(np.sum(np.exp(-Hs - m))))
     if abs(lw - tree["logweight"]) > TOL * max(1.0, abs(lw), float(np.max(np.abs(Hs)))):
@@ -757,8 +757,8 @@ def check_nuts(rec):
             verdict = _explain(orb, tree, L, d, D, maxde, tolscale)
             if verdict is None:
                 break
-    except _Ambiguous:
-        return dict(nontrivial=False, classes=cls + ["ambiguous"])
+    except _Ambiguous as amb:
+        return dict(nontrivial=False, classes=cls + ["ambiguous_" + str(amb)])
     if verdict is not None:
         raise Violation(verdict[0], verdict[1] + f" depth={d} max_tree_depth={D} maxde={maxde}")
     R = L + size - 1
